@@ -1,5 +1,6 @@
 import NixModel.Lemmas.C01Gen
 import NixModel.Lemmas.C01History
+import NixModel.Lemmas.C01Region
 
 /-! C01: the state-passing model with typed data (`Pure/NdStore.lean`) against the model of `Pure/NdArray.lean`:
 index arguments without `Ellipsis` select what `select` selects; a step that raised nothing is the step of its
@@ -571,5 +572,278 @@ theorem stepS_typed {A : DArr} (s : TStep) (hA : Typed A) : Typed (stepS A s).1 
 theorem runS_typed : ∀ (steps : List TStep) (A : DArr), Typed A → Typed (runS A steps)
   | [], _, hA => hA
   | s :: rest, A, hA => runS_typed rest (stepS A s).1 (stepS_typed s hA)
+
+/-! ### `Block.create_data_array`: the compiled argument rules + creation sequence are `createS` -/
+
+theorem map_ofNat_inj : ∀ (a b : List Nat), a.map Int.ofNat = b.map Int.ofNat → a = b
+  | [], [], _ => rfl
+  | [], _ :: _, h => by simp at h
+  | _ :: _, [], h => by simp at h
+  | x :: xs, y :: ys, h => by
+    simp only [List.map_cons, List.cons.injEq] at h
+    rw [Int.ofNat_inj.mp h.1, map_ofNat_inj xs ys h.2]
+
+theorem map_toNat_comp (l : List Nat) : List.map (Int.toNat ∘ Int.ofNat) l = l := by
+  induction l with
+  | nil => rfl
+  | cons x xs ih => simp [ih]
+
+theorem createRules_eq (dtype : Option DType) (shape : Option (List Nat)) (data : Option Arr) (compr : Bool) :
+    (createRules (dtype.map .nix) (shape.map (·.map Int.ofNat)) data).bind (createFrom compr)
+      = createS dtype shape data compr := by
+  unfold createRules createS
+  cases data with
+  | none =>
+    cases shape with
+    | none => rfl
+    | some sh =>
+      cases dtype with
+      | none =>
+        simp [npDtypeOfStr, Except.bind, createFrom, allNonneg_ofNat, map_toNat_comp, chooseDType]
+      | some t =>
+        simp [Except.bind, createFrom, allNonneg_ofNat, map_toNat_comp, chooseDType]
+  | some d0 =>
+    simp only [Option.isNone_some, Bool.false_eq_true, if_false, Option.map_some]
+    cases shape with
+    | none =>
+      simp only [Option.map_none, Option.isNone_none, Bool.not_true, Bool.false_eq_true, if_false, shapeAgrees]
+      cases dtype with
+      | none =>
+        by_cases ht : (npAscontiguousarray d0).dt = .string
+        · simp [Except.bind, createFrom, npDtype, ht]
+        · simp [Except.bind, createFrom, npDtype, ht, arrShape, allNonneg_ofNat, map_toNat_comp, chooseDType]
+      | some t =>
+        simp [Except.bind, createFrom, arrShape, allNonneg_ofNat, map_toNat_comp, chooseDType]
+    | some sh =>
+      simp only [Option.map_some, Option.isNone_some, Bool.not_false, if_true, shapeAgrees]
+      by_cases hs : sh = (npAscontiguousarray d0).a.shape
+      · subst hs
+        cases dtype with
+        | none =>
+          by_cases ht : (npAscontiguousarray d0).dt = .string
+          · simp [Except.bind, createFrom, npDtype, ht, arrShape]
+          · simp [Except.bind, createFrom, npDtype, ht, arrShape, allNonneg_ofNat, map_toNat_comp, chooseDType]
+        | some t =>
+          simp [Except.bind, createFrom, arrShape, allNonneg_ofNat, map_toNat_comp, chooseDType]
+      · have hne : ¬ (some (sh.map Int.ofNat) = some (arrShape (npAscontiguousarray d0))) := by
+          intro h
+          exact hs (map_ofNat_inj _ _ (Option.some.inj h))
+        simp [hne, hs, Except.bind]
+
+/-! ### `Ellipsis` -/
+
+theorem selectArgs_full (rank : Nat) : ∀ (k : Nat) (sh : List Nat) (rest : List IxE) (seen : Bool) (nargs : Nat),
+    k ≤ sh.length →
+    selectArgs rank sh ((List.replicate k (IxE.ix (Ix.slice none none none))) ++ rest) seen nargs =
+      (match selectArgs rank (sh.drop k) rest seen nargs with
+       | .ok r => .ok ((sh.take k).map fullSel ++ r)
+       | .error e => .error e)
+  | 0, sh, rest, seen, nargs, _ => by
+    simp only [List.replicate_zero, List.nil_append, List.drop_zero, List.take_zero, List.map_nil]
+    cases selectArgs rank sh rest seen nargs <;> rfl
+  | k + 1, [], _, _, _, h => by simp at h
+  | k + 1, n :: ns, rest, seen, nargs, h => by
+    simp only [List.length_cons, Nat.add_le_add_iff_right] at h
+    have ih := selectArgs_full rank k ns rest seen nargs h
+    have hfull : selectAxis n (Ix.slice none none none) = .ok (fullSel n) := by
+      simp only [selectAxis, sliceStep, adjustBound, fullSel]
+      by_cases hn : n = 0
+      · subst hn; simp
+      · have : ¬ (n < 0) := by omega
+        simp [this, hn]
+        omega
+    simp only [List.replicate_succ, List.cons_append, selectArgs, hfull, ih, List.drop_succ_cons,
+      List.take_succ_cons, List.map_cons]
+    cases selectArgs rank (ns.drop k) rest seen nargs <;> rfl
+
+theorem plainItems_append_map (a b : List Ix) :
+    plainItems (a.map IxE.ix ++ b.map IxE.ix) = some (a ++ b) := by
+  rw [← List.map_append]; exact plainItems_map _
+
+theorem selectArgs_ellipsis (R N : Nat) (post : List Ix) (hN : ¬ (N - 1 > R)) :
+    ∀ (pre : List Ix) (cur : List Nat), pre.length + (R - (N - 1)) ≤ cur.length →
+    selectArgs R cur (pre.map .ix ++ .ellipsis :: post.map .ix) false N =
+      select cur (pre ++ List.replicate (R - (N - 1)) (Ix.slice none none none) ++ post)
+  | [], cur, h => by
+    simp only [List.length_nil, Nat.zero_add] at h
+    simp only [List.map_nil, List.nil_append, selectArgs, Bool.false_eq_true, if_false, hN]
+    rw [selectArgs_plain R _ (post.map .ix) post true (N - 1) (plainItems_map post)]
+    have hp : plainItems (List.replicate (R - (N - 1)) (IxE.ix (Ix.slice none none none)) ++ post.map .ix)
+        = some (List.replicate (R - (N - 1)) (Ix.slice none none none) ++ post) := by
+      have := plainItems_append_map (List.replicate (R - (N - 1)) (Ix.slice none none none)) post
+      rwa [List.map_replicate] at this
+    rw [← selectArgs_plain R cur _ _ true (N - 1) hp, selectArgs_full R _ cur _ true (N - 1) h,
+      selectArgs_plain R _ (post.map .ix) post true (N - 1) (plainItems_map post)]
+    rfl
+  | p :: ps, [], h => by simp at h
+  | p :: ps, n :: ns, h => by
+    simp only [List.length_cons] at h
+    have ih := selectArgs_ellipsis R N post hN ps ns (by omega)
+    simp only [List.map_cons, List.cons_append, selectArgs, select, ih]
+    rfl
+
+/-- one `Ellipsis` stands for as many full slices as the index is short of the rank: for an index
+`pre + (Ellipsis,) + post` without further `Ellipsis` and with at most `rank` other items, the selection is that
+of `pre + (slice(None),) * (rank - len(pre) - len(post)) + post` -/
+theorem selectIndex_ellipsis (sh : List Nat) (pre post : List Ix) (h : pre.length + post.length ≤ sh.length) :
+    selectIndex sh (.tuple (pre.map .ix ++ .ellipsis :: post.map .ix)) =
+      select sh (pre ++ List.replicate (sh.length - pre.length - post.length) (Ix.slice none none none) ++ post) := by
+  unfold selectIndex
+  simp only [IndexArg.items, List.length_append, List.length_map, List.length_cons]
+  have hk : sh.length - (pre.length + (post.length + 1) - 1) = sh.length - pre.length - post.length := by omega
+  rw [← hk]
+  exact selectArgs_ellipsis sh.length _ post (by omega) pre sh (by omega)
+
+/-- index items that lead to an error whatever the remaining axes are, still do after a prefix of plain items -/
+theorem selectArgs_error_prefix (R : Nat) (rest : List IxE) (seen : Bool) (n : Nat)
+    (hrest : ∀ cur, ∃ e, selectArgs R cur rest seen n = .error e) :
+    ∀ (pre : List IxE) (cur : List Nat), (∃ p, plainItems pre = some p) →
+      ∃ e, selectArgs R cur (pre ++ rest) seen n = .error e
+  | [], cur, _ => hrest cur
+  | .ellipsis :: _, _, ⟨p, hp⟩ => by simp [plainItems] at hp
+  | .ix i :: ps, [], _ => ⟨.valueError, by simp [selectArgs]⟩
+  | .ix i :: ps, m :: ms, ⟨p, hp⟩ => by
+    simp only [plainItems, Option.map_eq_some_iff] at hp
+    obtain ⟨q, hq, _⟩ := hp
+    obtain ⟨e, he⟩ := selectArgs_error_prefix R rest seen n hrest ps ms ⟨q, hq⟩
+    simp only [List.cons_append, selectArgs, he]
+    cases selectAxis m i with
+    | error e' => exact ⟨e', rfl⟩
+    | ok s => exact ⟨e, rfl⟩
+
+/-- … and a second `Ellipsis` is an error (ValueError "Only one ellipsis may be used", unless another error is
+reached first) -/
+theorem selectIndex_two_ellipses (sh : List Nat) (pre mid post : List IxE) (hpre : ∃ p, plainItems pre = some p)
+    (hmid : ∃ m, plainItems mid = some m) :
+    ∃ e, selectIndex sh (.tuple (pre ++ .ellipsis :: (mid ++ .ellipsis :: post))) = .error e := by
+  unfold selectIndex
+  apply selectArgs_error_prefix _ _ _ _ _ pre sh hpre
+  intro cur
+  simp only [selectArgs, Bool.false_eq_true, if_false]
+  split
+  · exact ⟨_, rfl⟩
+  · rename_i hle
+    have h2 : ∀ cur', ∃ e, selectArgs sh.length cur' (.ellipsis :: post) true
+        ((IndexArg.tuple (pre ++ .ellipsis :: (mid ++ .ellipsis :: post))).items.length - 1) = .error e :=
+      fun cur' => ⟨.valueError, by simp [selectArgs]⟩
+    obtain ⟨e, he⟩ := selectArgs_error_prefix sh.length _ true _ h2 mid
+      (cur.drop (sh.length - ((IndexArg.tuple (pre ++ .ellipsis :: (mid ++ .ellipsis :: post))).items.length - 1)))
+      hmid
+    exact ⟨e, by rw [he]⟩
+
+/-! ### accepted kinds: the typed write is the assignment of the converted data, in both directions -/
+
+theorem h5SetItem_accepts (A B : DArr) (ix : IndexArg) (ixs : List Ix) (d : Arr)
+    (h : plainItems ix.items = some ixs) (hk : convRefusal d.dt A.dtype = none)
+    (hass : assign A ixs (convArr A.dtype d.a) = .ok B) : h5SetItem A ix d = .ok B := by
+  rw [h5SetItem_plain A ix ixs d h]
+  unfold assign at hass
+  cases hs : select A.arr.shape ixs with
+  | error e => simp [hs] at hass
+  | ok sel =>
+    simp only [hs] at hass ⊢
+    by_cases hb : bcastOk sel d.a.shape = true
+    · have hb' : bcastOk sel (convArr A.dtype d.a).shape = true := hb
+      rw [if_pos hb'] at hass
+      simp only [hb, Bool.not_true, Bool.false_eq_true, if_false, hk, ite_self]
+      rw [Except.ok.inj hass]
+    · have hb' : ¬ bcastOk sel (convArr A.dtype d.a).shape = true := hb
+      rw [if_neg hb'] at hass
+      cases hass
+
+/-- creation with typed data of an accepted kind: the new array has the chosen element type, the data's shape,
+and holds the converted data on every multi-index -/
+theorem createS_exact (dtype : Option DType) (shape : Option (List Nat)) (d0 : Arr) (compr : Bool)
+    (hsh : shapeAgrees shape (contiguous d0.a).shape = true) (htxt : ¬ (dtype = none ∧ d0.dt = .string))
+    (hk : convRefusal d0.dt (chooseDType dtype d0.dt) = none) :
+    ∃ A, createS dtype shape (some d0) compr = .ok A ∧ A.dtype = chooseDType dtype d0.dt ∧
+      A.compressed = compr ∧ A.arr.shape = (contiguous d0.a).shape ∧
+      ∀ idx, inBounds idx A.arr.shape = true →
+        A.arr.get idx = convElem (chooseDType dtype d0.dt) ((contiguous d0.a).get idx) := by
+  obtain ⟨B, hB, h1, h2, h3, h4⟩ := writeDirect_exact
+    ⟨chooseDType dtype d0.dt, compr, ⟨(contiguous d0.a).shape, fun _ => (chooseDType dtype d0.dt).fill⟩⟩
+    (convArr (chooseDType dtype d0.dt) (contiguous d0.a)) rfl (contiguous_rank d0.a)
+  refine ⟨B, ?_, h1, h2, h3, fun idx hb => h4 idx (h3 ▸ hb)⟩
+  unfold createS
+  simp only [npAscontiguousarray, hsh, Bool.not_true, Bool.false_eq_true, if_false, htxt]
+  exact h5SetItem_accepts _ B fullSlice _ ⟨d0.dt, contiguous d0.a⟩ fullSlice_plain hk hB
+
+/-! ### the read rule -/
+
+theorem selectAxis_err {n : Nat} {ix : Ix} {e : Err} (h : selectAxis n ix = .error e) :
+    e = .indexError ∨ e = .valueError := by
+  cases ix with
+  | int i =>
+    simp only [selectAxis] at h
+    split at h
+    · cases h
+    · cases h; exact Or.inl rfl
+  | slice a b c =>
+    simp only [selectAxis] at h
+    split at h
+    · cases h; exact Or.inr rfl
+    · split at h <;> cases h
+
+theorem selectArgs_err (R : Nat) : ∀ (items : List IxE) (sh : List Nat) (seen : Bool) (n : Nat) (e : Err),
+    selectArgs R sh items seen n = .error e → e = .indexError ∨ e = .valueError
+  | [], _, _, _, _, h => by simp [selectArgs] at h
+  | .ellipsis :: rest, sh, seen, n, e, h => by
+    simp only [selectArgs] at h
+    split at h
+    · cases h; exact Or.inr rfl
+    · split at h
+      · cases h; exact Or.inr rfl
+      · split at h
+        · cases h
+        · rename_i e' he
+          cases h
+          exact selectArgs_err R rest _ true (n - 1) _ he
+  | .ix _ :: _, [], _, _, _, h => by
+    simp only [selectArgs] at h
+    cases h; exact Or.inr rfl
+  | .ix i :: rest, m :: ms, seen, n, e, h => by
+    simp only [selectArgs] at h
+    split at h
+    · rename_i e' he
+      cases h
+      exact selectAxis_err he
+    · split at h
+      · cases h
+      · rename_i e' he
+        cases h
+        exact selectArgs_err R rest ms seen n _ he
+
+/-- `DataArray[ix]` / `DataArray._read_data(ix)`: the selection h5py computes (`None` = everything), every
+selection error re-raised as IndexError, a 0-d result returned with shape (1,) -/
+theorem readData_rule (A : DArr) (ix : IndexArg) :
+    readData A ix =
+      (match selectIndex A.arr.shape (match ix with | .none => fullSlice | s => s) with
+       | .ok sel =>
+         .ok (if selShape sel = [] then ⟨[1], fun _ => A.arr.get (absIdx sel [])⟩ else A.arr.gather sel)
+       | .error _ => .error (.err .indexError)) := by
+  unfold readData h5GetItem
+  cases hs : selectIndex A.arr.shape (match ix with | .none => fullSlice | s => s) with
+  | ok sel => simp only [NdArray.gather]; rfl
+  | error e =>
+    rcases selectArgs_err _ _ _ _ _ _ hs with rfl | rfl <;> simp
+
+/-! ### shrink, then grow: the elements that were cut off come back as fill values -/
+
+theorem shrink_grow (A B C : DArr) (e1 e2 : List Int) (h1 : setExtent A e1 = .ok B) (h2 : setExtent B e2 = .ok C) :
+    C.dtype = A.dtype ∧ C.arr.shape = e2.map Int.toNat ∧
+      ∀ idx, C.arr.get idx =
+        if inBounds idx B.arr.shape = true ∧ inBounds idx A.arr.shape = true then A.arr.get idx
+        else A.dtype.fill := by
+  have hB := setExtent_ok_eq h1
+  have hC := setExtent_ok_eq h2
+  subst hB
+  subst hC
+  refine ⟨rfl, rfl, fun idx => ?_⟩
+  simp only [NdArray.resize]
+  by_cases hb : inBounds idx (e1.map Int.toNat) = true
+  · by_cases ha : inBounds idx A.arr.shape = true
+    · simp [hb, ha]
+    · simp [hb, ha]
+  · simp [hb]
 
 end Nix.Nd.Lemmas
